@@ -7,7 +7,7 @@ import subprocess
 import vcheck
 
 AREA = "env"
-FILES = ["main.go", "child.go", "graph.go", "gen.go", "compare.go", "wire.go"]
+FILES = ["main.go", "child.go", "graph.go", "gen.go", "compare.go", "wire.go", "reason.go"]
 
 
 def variant():
